@@ -273,6 +273,7 @@ package storage
 //@   modifies acq, held, mapof(s.DeviceAuths), mapof(s.DeviceCodesRequestIDs)
 //@   ensures [C19.locks-released] held == old(held)
 //@   ensures [C19.one-critical-section-per-table] forall m V :: acq[m] >= old(acq[m]) && acq[m] <= old(acq[m]) + ((m == addr(s.deviceAuthsRequestIDsMutex) || m == addr(s.deviceAuthsMutex)) ? 1 : 0)
+//@   ensures [C16.store-device-table] err == nil && s.DeviceAuths[deviceCodeSignature] == req && s.DeviceAuths[userCodeSignature] == req && (forall k string :: k != deviceCodeSignature && k != userCodeSignature ==> (k in s.DeviceAuths) == old(k in s.DeviceAuths) && s.DeviceAuths[k] == old(s.DeviceAuths[k]))
 
 //@ func (*MemoryStore).GetDeviceCodeSession
 //@   requires store_wf(s) && held[addr(s.deviceAuthsMutex)] == 0 && (forall m2 V :: held[m2] != 0 ==> mrank(m2) < 2)
